@@ -34,13 +34,10 @@ def in_scope(q: str) -> bool:
     return q.startswith(SCOPE)
 
 
-_CACHE = {}
-
-
 def effects_of(prog) -> Effects:
-    if id(prog) not in _CACHE:
-        _CACHE[id(prog)] = Effects(prog).run()
-    return _CACHE[id(prog)]
+    if not hasattr(prog, '_effects'):
+        prog._effects = Effects(prog).run()
+    return prog._effects
 
 
 def positive_control(rep):
@@ -78,6 +75,9 @@ def run(rep, prog, tier, scope_fn=in_scope, pid_rule='R20'):
             rep.ob(f'{pid_rule}.param', q, True, 'no write to a parameter-owned object on any path or through any callee', f.site)
         for g, s in sorted(sm.globals_w.items()):
             rep.ob(f'{pid_rule}.global', f'{q}->{g[0]}.{g[1]}', False, f'writes module-level object {g[0]}.{g[1]}: {s}', f.site)
+        if f.cls is not None and is_init:
+            for a, s in sorted(sm.self_w.items()):
+                rep.ob(f'{pid_rule}.param', f'{q}:{a}', False, f'writes to a caller-supplied object held in a field while constructing: {s}', f.site)
         if f.cls is not None and not is_init:
             for a, s in sorted(sm.self_w.items()):
                 key = f'{q}:{a}'
